@@ -15,6 +15,8 @@ from ..typestate import propagate
 RULES_ATTR = "__rules__"
 CACHE_ATTR = "__cache__"
 RULE_FIELDS = {"enabled", "fn", "alt", "name"}
+# which derived attribute the typestate currently tracks, and which Rule fields its value depends on (None = all)
+_CFG: dict = {"cache": CACHE_ATTR, "fields": None}
 
 
 def _ruler_methods(c: Ctx) -> dict[str, Func]:
@@ -66,7 +68,7 @@ def _events(stmt: ast.AST, methods: dict[str, Func], aliases: set[str]) -> list:
         tg = list(stmt.targets)
     for t in tg:
         for e in (t.elts if isinstance(t, (ast.Tuple, ast.List)) else [t]):
-            if _is_self_attr(e, CACHE_ATTR):
+            if _is_self_attr(e, _CFG["cache"]):
                 v = getattr(stmt, "value", None)
                 ev.append("inv" if isinstance(v, ast.Constant) and v.value is None else "pub")
             elif _is_self_attr(e, RULES_ATTR):
@@ -75,7 +77,7 @@ def _events(stmt: ast.AST, methods: dict[str, Func], aliases: set[str]) -> list:
                 b = e.value
                 if (isinstance(b, ast.Subscript) and _is_self_attr(b.value, RULES_ATTR)) or \
                         (isinstance(b, ast.Name) and b.id in aliases):
-                    ev.append("mut")
+                    ev.append(("mutf", e.attr))
             elif isinstance(e, ast.Subscript) and _is_self_attr(e.value, RULES_ATTR):
                 ev.append("mut")
     return ev
@@ -85,12 +87,16 @@ def _apply(ev, s: str, summaries: dict, raised: set | None) -> set[str]:
     """States after event `ev` from state s. Raising exits of callees are added to `raised`."""
     if ev == "mut":
         return {"D" if s == "V" else s}
+    if isinstance(ev, tuple) and ev[0] == "mutf":
+        if _CFG["fields"] is None or ev[1] in _CFG["fields"]:
+            return {"D" if s == "V" else s}
+        return {s}
     if ev == "inv":
         return {"I"}
     if ev == "pub":
         return {"V"}
     callee = ev[1]
-    if callee == "__compile__":
+    if callee == "__compile__" and _CFG["cache"] == CACHE_ATTR:
         return {"V"}
     out = set()
     for (kind, s2) in summaries.get(callee, {}).get(s, {("ret", s)}):
@@ -134,13 +140,13 @@ def _method_exits(c: Ctx, f: Func, methods: dict[str, Func], summaries: dict, en
 
     def cache_none_test(a: ast.AST):
         """-> True if the test is `cache is None`-like, False if `cache is not None`-like, None otherwise."""
-        if isinstance(a, ast.Compare) and len(a.ops) == 1 and _is_self_attr(a.left, CACHE_ATTR) \
+        if isinstance(a, ast.Compare) and len(a.ops) == 1 and _is_self_attr(a.left, _CFG["cache"]) \
                 and isinstance(a.comparators[0], ast.Constant) and a.comparators[0].value is None:
             if isinstance(a.ops[0], (ast.Is, ast.Eq)):
                 return True
             if isinstance(a.ops[0], (ast.IsNot, ast.NotEq)):
                 return False
-        if _is_self_attr(a, CACHE_ATTR):
+        if _is_self_attr(a, _CFG["cache"]):
             return False
         return None
 
@@ -166,8 +172,7 @@ def _method_exits(c: Ctx, f: Func, methods: dict[str, Func], summaries: dict, en
     return exits, cfg
 
 
-def rule_cache(c: Ctx) -> RuleResult:
-    r = RuleResult("CACHE", "typestate: no exit of a Ruler method leaves rules mutated with a possibly valid cache")
+def _cache_obligations(c: Ctx, r: RuleResult, what: str) -> dict:
     methods = _ruler_methods(c)
     summaries: dict[str, dict[str, set]] = {}
     for _ in range(4):
@@ -177,6 +182,7 @@ def rule_cache(c: Ctx) -> RuleResult:
                 exits, _cfg = _method_exits(c, f, methods, summaries, entry)
                 summaries[name][entry] = {(k, s) for (k, s, _, _) in exits}
     public = [n for n in methods if not (n.startswith("__") and n.endswith("__"))]
+    tag = "" if _CFG["cache"] == CACHE_ATTR else f"|{_CFG['cache']}"
     for name in sorted(public):
         f = methods[name]
         exits, cfg = _method_exits(c, f, methods, summaries, "V")
@@ -189,14 +195,23 @@ def rule_cache(c: Ctx) -> RuleResult:
             if k in seen:
                 continue
             seen.add(k)
-            key = f"Ruler.{name}|{kind}|{desc if kind == 'raise' else 'return'}"
+            key = f"Ruler.{name}|{kind}|{desc if kind == 'raise' else 'return'}{tag}"
             if bad:
                 r.add(key, f"markdown_it/ruler.py:{line}", f"Ruler.{name}", f"exit by {kind}: {desc}", "violation",
-                      "reached with rule state mutated while the compiled chain cache may still be valid (entry: cache valid); "
-                      "the next getRules() serves the stale chains", {"entry_state": "V", "exit": kind, "line": line})
+                      f"reached with rule state mutated while {what} may still be valid (entry: valid); the next lookup serves the "
+                      f"stale value", {"entry_state": "V", "exit": kind, "line": line})
             else:
                 r.add(key, f"markdown_it/ruler.py:{line}", f"Ruler.{name}", f"exit by {kind}: {desc}", "discharged",
-                      f"exit state {s}: " + ("cache invalidated (None)" if s == "I" else "rules unchanged or cache rebuilt"))
+                      f"exit state {s}: " + (f"{what} invalidated (None)" if s == "I" else f"relevant rule state unchanged or {what} rebuilt"))
+    return summaries
+
+
+def rule_cache(c: Ctx) -> RuleResult:
+    r = RuleResult("CACHE", "typestate: no exit of a Ruler method leaves rules mutated with a possibly valid cache (the compiled chain "
+                            "cache, and any other attribute derived from the rule list)")
+    _CFG["cache"], _CFG["fields"] = CACHE_ATTR, {"enabled", "fn", "alt"}
+    methods = _ruler_methods(c)
+    summaries = _cache_obligations(c, r, "the compiled chain cache")
     # getRules must (re)compile when the cache is None
     g = methods["getRules"]
     exits, _ = _method_exits(c, g, methods, summaries, "I")
@@ -206,7 +221,159 @@ def rule_cache(c: Ctx) -> RuleResult:
             r.add(f"Ruler.getRules|from-invalid|{kind}", f"markdown_it/ruler.py:{line}", "Ruler.getRules",
                   f"return with cache entered as None: {desc}", "discharged" if ok else "violation",
                   "__compile__ runs before the cache is read" if ok else "returns without compiling although the cache is None")
+    # other attributes of Ruler that are derived from the rule list (lazily built indexes ...)
+    ci = c.p.cls("Ruler")
+    derived: dict[str, set[str]] = {}
+    for name, f in methods.items():
+        aliases = _element_aliases(f)
+        reads_rules = any(_is_self_attr(x, RULES_ATTR) for x in ast.walk(f.node))
+        for n in own_nodes(f.node):
+            if isinstance(n, (ast.Assign, ast.AnnAssign)) and getattr(n, "value", None) is not None:
+                tg = n.targets if isinstance(n, ast.Assign) else [n.target]
+                for t in tg:
+                    if isinstance(t, ast.Attribute) and isinstance(t.value, ast.Name) and t.value.id == "self" \
+                            and t.attr not in (RULES_ATTR, CACHE_ATTR) and reads_rules and name != "__init__" \
+                            and not (isinstance(n.value, ast.Constant) and n.value.value is None):
+                        flds = {x.attr for x in ast.walk(f.node) if isinstance(x, ast.Attribute) and isinstance(x.value, ast.Name)
+                                and x.value.id in aliases and isinstance(x.ctx, ast.Load)}
+                        derived.setdefault(t.attr, set()).update(flds)
+    for attr, flds in sorted(derived.items()):
+        _CFG["cache"], _CFG["fields"] = attr, set(flds)
+        r.notes.append(f"derived attribute self.{attr} depends on the rule list (fields read: {sorted(flds)}): same typestate applied")
+        try:
+            _cache_obligations(c, r, f"the derived attribute self.{attr}")
+        finally:
+            _CFG["cache"], _CFG["fields"] = CACHE_ATTR, None
+    _CFG["cache"], _CFG["fields"] = CACHE_ATTR, None
     r.floor = 14
+    return r
+
+
+def rule_swallow(c: Ctx) -> RuleResult:
+    from ..tokens import option_read_key
+    r = RuleResult("SWALLOW", "no invocation of user-supplied code (rule dispatch, render-rule call, highlight callback, plugin) sits inside "
+                              "a try whose handler does not re-raise: an exception from user code propagates to the caller")
+    n = 0
+    for f in sorted(c.p.all_funcs(), key=lambda x: x.qual):
+        for cs in c.cg.sites.get(f, []):
+            call = cs.node
+            kind = None
+            if cs.kind.startswith("dispatch:"):
+                kind = "rule dispatch"
+            elif cs.kind == "render-dispatch":
+                kind = "render-rule call"
+            elif isinstance(call.func, ast.Attribute) and option_read_key(call.func) == "highlight":
+                kind = "highlight callback"
+            elif f.short == "MarkdownIt.use" and isinstance(call.func, ast.Name) and call.func.id in {a.arg for a in f.node.args.args}:
+                kind = "plugin call"
+            if kind is None:
+                continue
+            n += 1
+            bad = None
+            child: ast.AST = call
+            p_ = f.module.parents.get(call)
+            while p_ is not None and p_ is not f.node:
+                if isinstance(p_, ast.Try) and any(child is s_ or any(child is y for y in ast.walk(s_)) for s_ in p_.body):
+                    for h in p_.handlers:
+                        last = h.body[-1] if h.body else None
+                        if not isinstance(last, ast.Raise):
+                            bad = h
+                if isinstance(p_, ast.With):
+                    for it in p_.items:
+                        if isinstance(it.context_expr, ast.Call) and U(it.context_expr.func).split(".")[-1] == "suppress":
+                            bad = p_
+                child = p_
+                p_ = f.module.parents.get(p_)
+            key = f"{f.short}|{kind}|{alpha(f, call)[:50]}"
+            if bad is None:
+                r.add(key, c.where(f, call), f.short, U(call)[:70], "discharged", f"{kind}: not inside a swallowing handler")
+            else:
+                what = ("except " + (U(bad.type) if getattr(bad, "type", None) is not None else "")) if isinstance(bad, ast.ExceptHandler) else "suppress(...)"
+                r.add(key, c.where(f, call), f.short, U(call)[:70], "violation",
+                      f"{kind} inside `{what}:` that does not re-raise: an exception of that class raised by user code is swallowed, the call "
+                      f"returns normally with a partial result")
+    if n < 8:
+        raise AnchorError(f"only {n} callback invocation sites found")
+    r.floor = 10
+    return r
+
+
+SETSEM = {
+    # method -> (allowed element-field stores {field: required constant or None}, structural mutation allowed?, may construct Rule?)
+    "at": ({"fn": None, "alt": None}, False, False),
+    "before": ({}, True, True),
+    "after": ({}, True, True),
+    "push": ({}, True, True),
+    "enable": ({"enabled": True}, False, False),
+    "disable": ({"enabled": False}, False, False),
+    "enableOnly": ({"enabled": False}, False, False),
+}
+
+
+def rule_setsem(c: Ctx) -> RuleResult:
+    r = RuleResult("SETSEM", "each Ruler mutator changes only what its contract says: `at` replaces function and options of the named rule and "
+                             "keeps its position and enabled flag; enable / disable / enableOnly only switch `enabled`; before / after / push "
+                             "insert a new, enabled rule")
+    methods = _ruler_methods(c)
+    for name, (fields, structural, ctor) in sorted(SETSEM.items()):
+        f = methods.get(name)
+        if f is None:
+            raise AnchorError(f"Ruler.{name} not found")
+        r.functions += 1
+        aliases = _element_aliases(f)
+        problems: list[tuple[ast.AST, str]] = []
+        nwrites = 0
+        for n in own_nodes(f.node):
+            tg: list[ast.AST] = []
+            if isinstance(n, ast.Assign):
+                tg = list(n.targets)
+            elif isinstance(n, (ast.AugAssign, ast.AnnAssign)):
+                tg = [n.target]
+            elif isinstance(n, ast.Delete):
+                tg = list(n.targets)
+            for t in tg:
+                if isinstance(t, ast.Attribute):
+                    b = t.value
+                    if (isinstance(b, ast.Subscript) and _is_self_attr(b.value, RULES_ATTR)) or (isinstance(b, ast.Name) and b.id in aliases):
+                        nwrites += 1
+                        if t.attr not in fields:
+                            problems.append((n, f"stores rule field `{t.attr}`, which `{name}` must leave alone"))
+                        elif fields[t.attr] is not None:
+                            v = getattr(n, "value", None)
+                            if not (isinstance(v, ast.Constant) and v.value is fields[t.attr]):
+                                problems.append((n, f"stores `{U(v) if v is not None else '?'}` into `{t.attr}` (must be {fields[t.attr]})"))
+                elif isinstance(t, ast.Subscript) and _is_self_attr(t.value, RULES_ATTR):
+                    nwrites += 1
+                    if not structural:
+                        problems.append((n, "replaces a whole rule record: its position is kept but its other fields (the enabled flag) are lost"))
+                elif _is_self_attr(t, RULES_ATTR) and name != "__init__":
+                    nwrites += 1
+                    if not structural:
+                        problems.append((n, "rebinds the rule list"))
+            if isinstance(n, ast.Call):
+                if isinstance(n.func, ast.Attribute) and _is_self_attr(n.func.value, RULES_ATTR) and n.func.attr in MUTATORS:
+                    nwrites += 1
+                    if not structural:
+                        problems.append((n, f"changes the structure of the rule list (`{n.func.attr}`)"))
+                    elif n.func.attr not in ("insert", "append"):
+                        problems.append((n, f"`{n.func.attr}` on the rule list: `{name}` may only insert"))
+                cs = c.cg.site_of.get(n)
+                if cs is not None and cs.kind == "ctor" and cs.detail == "Rule":
+                    if not ctor:
+                        problems.append((n, "constructs a new Rule record"))
+                    else:
+                        en = n.args[1] if len(n.args) > 1 else next((k.value for k in n.keywords if k.arg == "enabled"), None)
+                        if not (isinstance(en, ast.Constant) and en.value is True):
+                            problems.append((n, "a newly added rule must be enabled (second constructor argument True)"))
+        key = f"Ruler.{name}"
+        if problems:
+            for (node, why) in problems:
+                r.add(key + "|" + alpha(f, node)[:50], c.where(f, node), f"Ruler.{name}", U(node)[:80], "violation",
+                      f"Ruler.{name} {why}: the reported set no longer follows the obvious set semantics of the call")
+        else:
+            r.add(key, c.where(f, f.node), f"Ruler.{name}", f"def {name}", "discharged",
+                  f"{nwrites} write(s) to the rule list, all within the method's contract")
+    r.floor = 7
     return r
 
 
